@@ -38,9 +38,29 @@ func valTok(q string) string {
 }
 
 type tieEnc struct {
-	ctx  context.Context
-	w    []string
-	skip string
+	ctx         context.Context
+	w           []string
+	skip        string
+	strictTable bool // the table whose columns are being encoded is STRICT
+}
+
+// typeTok: the declared type as the model sees it.  ANY means two different things: values are kept
+// verbatim in a STRICT table and get NUMERIC affinity in an ordinary one.
+func typeTok(typ string, strict bool) string {
+	n := normType(typ)
+	if n == "any" {
+		if strict {
+			return "any/strict"
+		}
+		return "any/plain"
+	}
+	return n
+}
+
+// strictSQL: the CREATE TABLE text ends with the STRICT option.
+func strictSQL(sql string) bool {
+	i := strings.LastIndexByte(sql, ')')
+	return i >= 0 && strings.Contains(strings.ToUpper(sql[i:]), "STRICT")
 }
 
 func (e *tieEnc) add(t ...string) { e.w = append(e.w, t...) }
@@ -53,7 +73,7 @@ func (e *tieEnc) defval(typ, expr string) string {
 		// not a constant: a non-NULL placeholder; the column is masked on both sides
 		return valTok("'?'")
 	}
-	q, err := evalDefault(e.ctx, typ, expr)
+	q, err := evalDefault(e.ctx, typ, expr, e.strictTable)
 	if err != nil {
 		e.skip = "default-not-evaluable"
 		return "N"
@@ -70,7 +90,7 @@ func (e *tieEnc) stateCol(c ColInfo) {
 	if strings.Contains(strings.ToUpper(c.Dflt), "CURRENT_") {
 		dk = "2"
 	}
-	e.add(hx(c.Name), hx(normType(c.Type)), b01(c.NotNull), dk, e.defval(c.Type, c.Dflt), b01(c.Hidden >= 2), b01(c.Hidden == 3), "0", "0")
+	e.add(hx(c.Name), hx(typeTok(c.Type, e.strictTable)), b01(c.NotNull), dk, e.defval(c.Type, c.Dflt), b01(c.Hidden >= 2), b01(c.Hidden == 3), "0", "0")
 }
 
 func defaultText(c *schema.Column) (kind string, text string) {
@@ -126,7 +146,7 @@ func (e *tieEnc) planCol(c *schema.Column) {
 		}
 	}
 	_ = txt
-	e.add(hx(c.Name), hx(normType(typ)), b01(!c.Type.Null), dk, e.defval(typ, plannerDefaultSQL(c)), b01(gen), b01(stored), b01(len(c.Indexes) > 0), b01(len(c.ForeignKeys) > 0))
+	e.add(hx(c.Name), hx(typeTok(typ, e.strictTable)), b01(!c.Type.Null), dk, e.defval(typ, plannerDefaultSQL(c)), b01(gen), b01(stored), b01(len(c.Indexes) > 0), b01(len(c.ForeignKeys) > 0))
 }
 
 func actionTok(a schema.ReferenceOption) string {
@@ -155,8 +175,25 @@ func (e *tieEnc) fk(f *schema.ForeignKey) {
 	e.add(actionTok(f.OnDelete))
 }
 
+func hasTableAttr(t *schema.Table, strict bool) bool {
+	for _, a := range t.Attrs {
+		switch a.(type) {
+		case *sqlite.Strict:
+			if strict {
+				return true
+			}
+		case *sqlite.WithoutRowID:
+			if !strict {
+				return true
+			}
+		}
+	}
+	return false
+}
+
 func (e *tieEnc) tdef(t *schema.Table) {
-	e.add(hx(t.Name), fmt.Sprint(len(t.Columns)))
+	e.strictTable = hasTableAttr(t, true)
+	e.add(hx(t.Name), b01(e.strictTable), b01(hasTableAttr(t, false)), fmt.Sprint(len(t.Columns)))
 	for _, c := range t.Columns {
 		e.planCol(c)
 	}
@@ -254,6 +291,7 @@ func tieCaseF(ctx context.Context, before *Dump, cur *schema.Schema, changes []s
 	// tables in creation order would need sqlite_master.rowid; the model does not depend on the order
 	for _, n := range before.Names {
 		t := before.Tables[n]
+		e.strictTable = strictSQL(t.SQL[0])
 		e.add(hx(n), fmt.Sprint(len(t.Cols)))
 		for _, c := range t.Cols {
 			e.stateCol(c)
@@ -328,7 +366,7 @@ func tieObs(before, after *Dump, errClass string) []string {
 			} else if strings.Contains(strings.ToUpper(c.Dflt), "CURRENT_") {
 				mask[i] = 3
 			} else if tb != nil {
-				if bi := tb.colIdx(c.Name); bi >= 0 && normType(tb.Cols[bi].Type) != normType(c.Type) {
+				if bi := tb.colIdx(c.Name); bi >= 0 && typeTok(tb.Cols[bi].Type, strictSQL(tb.SQL[0])) != typeTok(c.Type, strictSQL(t.SQL[0])) {
 					mask[i] = 1
 				}
 			}
